@@ -6,6 +6,7 @@ import Driver.Export
 import Driver.Schema
 import Driver.Cli
 import Driver.Carve
+import Driver.SpecPage
 
 open SqliteDissect
 
@@ -20,6 +21,7 @@ def dispatch (toks : List String) : IO String := do
       else if op.startsWith "sig." || op.startsWith "re." then
         pure (Driver.Sig.handle toks)
       else if op.startsWith "cli." then pure (Driver.Cli.handle toks)
+      else if op == "spec.page" then pure (Driver.SpecPage.handle toks)
       else if op.startsWith "spec.local" || op.startsWith "spec.cell" || op.startsWith "spec.ptrmap" || op.startsWith "spec.hdr" then
         pure (Driver.Arith.handle toks)
       else if op.startsWith "varint." || op.startsWith "serial." || op.startsWith "overflow." || op.startsWith "spec." then
